@@ -5,7 +5,7 @@ CONSTANTS Ctx <- McCtx
  Devs = {}
  Kinds = {"xfer", "vote", "reg", "topup", "unreg"}
  From = {"a1", "a2"}
- XTo = {"a1", "a2", "I"}
+ XTo = {"a1", "a2"}
  XAmt = {100, 1000}
  Payers = {}
  Voters = {"a1", "a2", "I"}
